@@ -3,7 +3,7 @@
    `tb p` ("trivia boundary") holds when that state is TS_normal, or TS_line with the cursor standing on the line end that closes the
    comment (or at the end), or inside an unterminated block comment at the end of the input. *)
 From Coq Require Import ZArith NArith List Bool String Lia Arith.
-From ChaiV Require Import NumDefs LexDefs LexProofs LexLitProofs ParserLexProofs ParserDefs.
+From ChaiV Require Import NumDefs Ast LexDefs LexProofs LexLitProofs ParserLexProofs ParserDefs.
 Import ListNotations.
 Local Open Scope nat_scope.
 
@@ -565,3 +565,322 @@ Section TriviaScanners.
     intros Ho. apply (tb_ext (pos s) (pos s')); [apply (ext_buf _ _ E')|apply Hn, Ho|exact Tb].
   Qed.
 End TriviaScanners.
+
+(* ------------------------------------------------------------------ the grammar layer: a function that reports no match leaves the cursor on a boundary *)
+Notation ST := (state pstate).
+
+Lemma bind_ok_inv {U X Y} (m : M U X) (k : X -> M U Y) (s : state U) r :
+  bind m k s = Ok r -> exists a s1, m s = Ok (a, s1) /\ k a s1 = Ok r.
+Proof. unfold bind. destruct (m s) as [[a s1]| | |]; try discriminate. intros H. eauto. Qed.
+Lemma with_depth_inv {U X} (m : M U X) (s : state U) a s' :
+  with_depth m s = Ok (a, s') -> exists s2, m (mkState (pos s) (S (depth s)) (user s)) = Ok (a, s2) /\ pos s' = pos s2.
+Proof.
+  unfold with_depth. destruct (Nat.ltb max_parse_depth _); [discriminate|].
+  destruct (m _) as [[a2 s2]| | |]; try discriminate. intros H. inversion H; subst. eexists. split; reflexivity.
+Qed.
+
+(* partial-correctness reading of `keeps_tb`: IF the run ends normally with "no match", the cursor is on a boundary of the same buffer *)
+Definition nfr (m : PM bool) : Prop :=
+  forall s s', wf_pos (pos s) -> tb (pos s) -> m s = Ok (false, s') -> wf_pos (pos s') /\ tb (pos s') /\ buf (pos s') = buf (pos s).
+Definition nfo {X} (m : PM (option X)) : Prop :=
+  forall s s', wf_pos (pos s) -> tb (pos s) -> m s = Ok (None, s') -> wf_pos (pos s') /\ tb (pos s') /\ buf (pos s') = buf (pos s).
+Lemma keeps_nfr (m : PM bool) : keeps_tb m is_false -> nfr m.
+Proof.
+  intros H s s' W Tb E. specialize (H s W Tb). rewrite E in H. destruct H as [Ex Ht].
+  split; [apply (ext_wf _ _ Ex)|]. split; [apply Ht; reflexivity|apply (ext_buf _ _ Ex)].
+Qed.
+Lemma keeps_nfo {X} (m : PM (option X)) : keeps_tb m is_none -> nfo m.
+Proof.
+  intros H s s' W Tb E. specialize (H s W Tb). rewrite E in H. destruct H as [Ex Ht].
+  split; [apply (ext_wf _ _ Ex)|]. split; [apply Ht; reflexivity|apply (ext_buf _ _ Ex)].
+Qed.
+
+(* computations that never end with "no match" *)
+Definition never_false (m : PM bool) : Prop := forall s s', m s <> Ok (false, s').
+Lemma nvf_ret_true : never_false (ret true).
+Proof. intros s s' H. inversion H. Qed.
+Lemma nvf_bind {X} (m : PM X) (k : X -> PM bool) : (forall a, never_false (k a)) -> never_false (bind m k).
+Proof. intros H s s' E. apply bind_ok_inv in E. destruct E as (a & s1 & _ & E). exact (H a s1 s' E). Qed.
+Lemma nvf_throw r : never_false (throw_at r).
+Proof. intros s s' H. discriminate. Qed.
+Lemma nvf_throw_pos r l c : never_false (throw_pos r l c).
+Proof. intros s s' H. discriminate. Qed.
+Lemma nvf_crash k : never_false (crash_with k).
+Proof. intros s s' H. discriminate. Qed.
+Lemma nvf_with_depth (m : PM bool) : never_false m -> never_false (with_depth m).
+Proof. intros H s s' E. apply with_depth_inv in E. destruct E as (s2 & E & _). exact (H _ _ E). Qed.
+Ltac nvf :=
+  repeat first [ apply nvf_ret_true | apply nvf_throw | apply nvf_throw_pos | apply nvf_crash
+               | apply nvf_with_depth
+               | apply nvf_bind; intros
+               | match goal with
+                 | |- never_false (if ?c then _ else _) => destruct c
+                 | |- never_false (match ?o with _ => _ end) => destruct o
+                 | |- never_false (let _ := _ in _) => cbv zeta
+                 end ].
+
+Lemma nfr_ret_false : nfr (ret false).
+Proof. intros s s' W Tb E. inversion E; subst. auto. Qed.
+Lemma nfr_orelse (m1 : PM bool) (B REST : PM bool) : nfr m1 -> never_false B -> nfr REST -> nfr (k <- m1 ;; if k then B else REST).
+Proof.
+  intros H1 HB HR s s' W Tb E. apply bind_ok_inv in E. destruct E as (k & s1 & E1 & E2). destruct k.
+  - exfalso. exact (HB _ _ E2).
+  - destruct (H1 _ _ W Tb E1) as (W1 & T1 & B1). destruct (HR _ _ W1 T1 E2) as (W2 & T2 & B2). split; [exact W2|]. split; [exact T2|congruence].
+Qed.
+Lemma nfr_with_depth (m : PM bool) : nfr m -> nfr (with_depth m).
+Proof.
+  intros H s s' W Tb E. apply with_depth_inv in E. destruct E as (s2 & E & Ep).
+  destruct (H (mkState (pos s) (S (depth s)) (user s)) s2 W Tb E) as (W2 & T2 & B2). rewrite Ep. auto.
+Qed.
+Lemma nfr_prev (F : nat -> PM bool) : (forall n, nfr (F n)) -> nfr (prev <- stack_size ;; F prev).
+Proof.
+  intros H s s' W Tb E. apply bind_ok_inv in E. destruct E as (n & s1 & E1 & E2).
+  cbv [stack_size bind get_stack ret] in E1. inversion E1; subst. exact (H _ _ _ W Tb E2).
+Qed.
+Lemma nfr_tok_g (m : PM (option token)) : nfo m -> nfr (t <- m ;; push_opt t).
+Proof.
+  intros H s s' W Tb E. apply bind_ok_inv in E. destruct E as (o & s1 & E1 & E2). destruct o as [t|].
+  - exfalso. unfold push_opt in E2. apply bind_ok_inv in E2. destruct E2 as (? & ? & _ & E2). inversion E2.
+  - unfold push_opt in E2. inversion E2; subst. exact (H _ _ W Tb E1).
+Qed.
+
+Section GrammarTrivia.
+  Variable A : alphabets.
+  Variable T : int_tables.
+  Variable K : kw_tables.
+  Variable G : gtables.
+  Hypothesis white_ok : forall c, in_alpha (a_white A) c = true -> c = 32%N \/ c = 9%N.
+  Hypothesis id_sub_keyword : forall c, in_alpha (a_id A) c = true -> in_alpha (a_keyword A) c = true.
+
+  Lemma Symbol_tb sym dp : keeps_tb (Symbol A G sym dp) is_false.
+  Proof.
+    unfold Symbol. apply keeps_tb_with_depth, (keeps_tb_ws A white_ok).
+    intros s W Tb. pose proof (ext_refl s W) as E. step_pos. step (fine_Symbol_ (U:=pstate) sym). step_pos.
+    match goal with |- context [if ?c then _ else _] => destruct c end.
+    - match goal with |- context [if ?c then _ else _] => destruct c end.
+      + done_ret. unfold is_false. discriminate.
+      + apply post_bind. simpl. split; [apply ext_intro; simpl; auto; exts|]. intros _. exact Tb.
+    - done_ret. intros Ha. unfold is_false in Ha. subst a. rewrite R. exact Tb.
+  Qed.
+
+  Definition nKw t := keeps_nfr _ (Keyword_tb A white_ok t).
+  Definition nChar c := keeps_nfr _ (Char_tb A white_ok c).
+  Definition nSym sym dp := keeps_nfr _ (Symbol_tb sym dp).
+  Definition nEol := keeps_nfr _ (Eol_tb A white_ok).
+
+  Lemma nfr_Id_g v : nfr (Id_g A K v).
+  Proof. apply nfr_tok_g, keeps_nfo, (Id_tb A white_ok id_sub_keyword). Qed.
+  Lemma nfr_Num_g : nfr (Num_g A T).
+  Proof. apply nfr_tok_g, keeps_nfo, (Num_tb A white_ok). Qed.
+  Lemma nfr_SQS_g : nfr (Single_Quoted_String_g A).
+  Proof. apply nfr_tok_g, keeps_nfo, (Single_Quoted_String_tb A white_ok). Qed.
+
+  Lemma nfr_keyword_node fn k : nfr (keyword_node A G fn k).
+  Proof. unfold keyword_node. apply nfr_with_depth, nfr_prev. intros n. apply nfr_orelse; [apply nKw|nvf|apply nfr_ret_false]. Qed.
+
+  Lemma nfr_Var_Decl cc cn : nfr (Var_Decl A K G cc cn).
+  Proof.
+    unfold Var_Decl. apply nfr_with_depth, nfr_prev. intros n.
+    apply nfr_orelse; [|nvf|].
+    { destruct cc; [|apply nfr_ret_false]. apply nfr_orelse; [apply nKw|nvf|]. apply nfr_orelse; [apply nKw|nvf|apply nKw]. }
+    apply nfr_orelse; [apply nfr_orelse; [apply nKw|nvf|apply nKw]|nvf|].
+    apply nfr_orelse; [apply nKw|nvf|]. apply nfr_orelse; [apply nKw|nvf|apply nfr_ret_false].
+  Qed.
+
+  (* the nonterminals a failing statement can go through *)
+  Definition needs (nt : NT) : Prop :=
+    match nt with
+    | NLambda | NDef _ _ | NTry | NIf | NClass _ | NWhile | NFor | NSwitch | NBlock | NReturn | NDot_Fun_Array | NParen_Expression
+    | NInline_Container | NPrefix | NValue | NOperator _ | NEquation => True
+    | _ => False
+    end.
+
+  Section WithCall.
+    Variable call : NT -> PM bool.
+    Hypothesis Hcall : forall nt, needs nt -> nfr (call nt).
+
+    Lemma qs_replay_nvf q : never_false (qs_replay call q).
+    Proof. unfold qs_replay. nvf. Qed.
+    Lemma nfr_Quoted_String_g : nfr (Quoted_String_g A call).
+    Proof.
+      intros s s' W Tb E. unfold Quoted_String_g in E. apply bind_ok_inv in E. destruct E as (o & s1 & E1 & E2). destruct o as [q|].
+      - exfalso. apply (nvf_with_depth _ (qs_replay_nvf q) _ _ E2).
+      - inversion E2; subst. exact (keeps_nfo _ (Quoted_String_tb A white_ok) _ _ W Tb E1).
+    Qed.
+    Lemma equation_try_nvf syms prev : never_false (equation_try A G call syms prev).
+    Proof. induction syms as [|o r IH]; cbn [equation_try]; [apply nvf_ret_true|]. apply nvf_bind. intros b. destruct b; [nvf|exact IH]. Qed.
+    Lemma prefix_try_nfr opers prev : nfr (prefix_try A G call opers prev).
+    Proof.
+      induction opers as [|o r IH]; cbn [prefix_try]; [apply nfr_ret_false|].
+      apply nfr_orelse; [|nvf|exact IH]. destruct o as [|c [|c2 r2]]; [apply nSym|apply nChar|apply nSym].
+    Qed.
+
+    Lemma body_nfr nt : needs nt -> nfr (body A T K G call nt).
+    Proof.
+      intros Hn. destruct nt; try contradiction; cbn [body].
+      - unfold Lambda_b. apply nfr_with_depth, nfr_prev. intros n. apply nfr_orelse; [apply nKw|nvf|apply nfr_ret_false].
+      - unfold Def_b. apply nfr_with_depth, nfr_prev. intros n. apply nfr_orelse; [apply nKw|nvf|apply nfr_ret_false].
+      - unfold Try_b. apply nfr_with_depth, nfr_prev. intros n. apply nfr_orelse; [apply nKw|nvf|apply nfr_ret_false].
+      - unfold If_b. apply nfr_with_depth, nfr_prev. intros n. apply nfr_orelse; [apply nKw|nvf|apply nfr_ret_false].
+      - unfold Class_b. apply nfr_with_depth, nfr_prev. intros n. apply nfr_orelse; [apply nKw|nvf|apply nfr_ret_false].
+      - unfold While_b. apply nfr_with_depth, nfr_prev. intros n. apply nfr_orelse; [apply nKw|nvf|apply nfr_ret_false].
+      - unfold For_b. apply nfr_with_depth, nfr_prev. intros n. apply nfr_orelse; [apply nKw|nvf|apply nfr_ret_false].
+      - unfold Switch_b. apply nfr_with_depth, nfr_prev. intros n. apply nfr_orelse; [apply nKw|nvf|apply nfr_ret_false].
+      - unfold Block_b, block_of. apply nfr_with_depth, nfr_prev. intros n. apply nfr_orelse; [apply nChar|nvf|apply nfr_ret_false].
+      - unfold Return_b. apply nfr_with_depth, nfr_prev. intros n. apply nfr_orelse; [apply nKw|nvf|apply nfr_ret_false].
+      - unfold Dot_Fun_Array_b. apply nfr_with_depth, nfr_prev. intros n. apply nfr_orelse; [|nvf|apply nfr_ret_false].
+        apply nfr_orelse; [apply (Hcall NLambda I)|nvf|]. apply nfr_orelse; [apply nfr_Num_g|nvf|]. apply nfr_orelse; [apply nfr_Quoted_String_g|nvf|].
+        apply nfr_orelse; [apply nfr_SQS_g|nvf|]. apply nfr_orelse; [apply (Hcall NParen_Expression I)|nvf|].
+        apply nfr_orelse; [apply (Hcall NInline_Container I)|nvf|apply nfr_Id_g].
+      - unfold Paren_Expression_b. apply nfr_with_depth. apply nfr_orelse; [apply nChar|nvf|apply nfr_ret_false].
+      - unfold Inline_Container_b. apply nfr_with_depth, nfr_prev. intros n. apply nfr_orelse; [apply nChar|nvf|apply nfr_ret_false].
+      - unfold Prefix_b. apply nfr_with_depth, nfr_prev. intros n. apply prefix_try_nfr.
+      - unfold Value_b. apply nfr_with_depth. apply nfr_orelse; [apply nfr_Var_Decl|nvf|]. apply nfr_orelse; [apply (Hcall NDot_Fun_Array I)|nvf|apply (Hcall NPrefix I)].
+      - unfold Operator_b. apply nfr_with_depth, nfr_prev. intros n. destruct (nth_error (g_operators G) prec) as [op|].
+        + destruct (op_prec_eqb op Prefix); [apply (Hcall NValue I)|]. apply nfr_orelse; [apply (Hcall (NOperator (S prec)) I)|nvf|apply nfr_ret_false].
+        + intros s s' _ _ E. discriminate.
+      - unfold Equation_b. apply nfr_with_depth, nfr_prev. intros n. apply nfr_orelse; [apply (Hcall (NOperator 0) I)|apply equation_try_nvf|apply nfr_ret_false].
+    Qed.
+  End WithCall.
+
+  Lemma any_of_nfr l : Forall nfr l -> nfr (any_of l).
+  Proof.
+    induction 1 as [|m r Hm Hr IH]; unfold any_of; cbn [fold_right]; [apply nfr_ret_false|].
+    fold (any_of r). apply nfr_orelse; [exact Hm|apply nvf_ret_true|exact IH].
+  Qed.
+
+  Section Stmts.
+    Variable call : NT -> PM bool.
+    Hypothesis Hcall : forall nt, needs nt -> nfr (call nt).
+    Variable ca : bool.
+
+    Definition stmts_body (v : bool * bool) : PM ((bool * bool) * bool) :=
+      start <- get_pos ;;
+      s1 <- any_of [call (NDef false ""); call NTry; call NIf; call NWhile; call (NClass ca); call NFor; call NSwitch] ;;
+      if s1 then
+        (if snd v then ret tt else throw_pos "Two function definitions missing line separator" (line start) (col start)) ;;;
+        ret ((true, true), true)
+      else
+        s2 <- any_of [call NReturn; Break A G; Continue A G; call NEquation] ;;
+        if s2 then
+          (if snd v then ret tt else throw_pos "Two expressions missing line separator" (line start) (col start)) ;;;
+          ret ((true, false), true)
+        else
+          s3 <- any_of [call NBlock; Eol A] ;;
+          if s3 then ret ((true, true), true) else ret (v, false).
+
+    (* one iteration either reports a statement (and asks for more) or gives up having skipped trivia only *)
+    Lemma stmts_body_inv v (s s1 : ST) r :
+      wf_pos (pos s) -> tb (pos s) -> stmts_body v s = Ok (r, s1) ->
+      (snd r = true /\ fst (fst r) = true) \/ (snd r = false /\ fst r = v /\ wf_pos (pos s1) /\ tb (pos s1) /\ buf (pos s1) = buf (pos s)).
+    Proof.
+      intros W Tb E. unfold stmts_body in E.
+      apply bind_ok_inv in E. destruct E as (st & sa & Ea & E). cbv [get_pos] in Ea. inversion Ea; subst. clear Ea.
+      assert (N1 : nfr (any_of [call (NDef false ""); call NTry; call NIf; call NWhile; call (NClass ca); call NFor; call NSwitch])).
+      { apply any_of_nfr. repeat (apply Forall_cons; [apply Hcall; exact I|]). apply Forall_nil. }
+      assert (N2 : nfr (any_of [call NReturn; Break A G; Continue A G; call NEquation])).
+      { apply any_of_nfr. apply Forall_cons; [apply Hcall; exact I|]. apply Forall_cons; [apply nfr_keyword_node|]. apply Forall_cons; [apply nfr_keyword_node|].
+        apply Forall_cons; [apply Hcall; exact I|apply Forall_nil]. }
+      assert (N3 : nfr (any_of [call NBlock; Eol A])).
+      { apply any_of_nfr. apply Forall_cons; [apply Hcall; exact I|]. apply Forall_cons; [apply nEol|apply Forall_nil]. }
+      apply bind_ok_inv in E. destruct E as (b1 & sb & E1 & E). destruct b1.
+      { left. apply bind_ok_inv in E. destruct E as (? & ? & _ & E). inversion E; subst. auto. }
+      destruct (N1 _ _ W Tb E1) as (W1 & T1 & B1).
+      apply bind_ok_inv in E. destruct E as (b2 & sc & E2 & E). destruct b2.
+      { left. apply bind_ok_inv in E. destruct E as (? & ? & _ & E). inversion E; subst. auto. }
+      destruct (N2 _ _ W1 T1 E2) as (W2 & T2 & B2).
+      apply bind_ok_inv in E. destruct E as (b3 & sd & E3 & E). destruct b3.
+      { left. inversion E; subst. auto. }
+      destruct (N3 _ _ W2 T2 E3) as (W3 & T3 & B3).
+      right. inversion E; subst. cbn [fst snd]. split; [reflexivity|]. split; [reflexivity|]. split; [exact W3|]. split; [exact T3|congruence].
+    Qed.
+
+    Lemma stmts_while_mono fuel : forall v (s s' : ST) v',
+      while_ fuel stmts_body v s = Ok (v', s') -> fst v = true -> fst v' = true.
+    Proof.
+      induction fuel as [|f IH]; intros v s s' v' E Hv; [discriminate|].
+      cbn [while_] in E. apply bind_ok_inv in E. destruct E as (r & s1 & Eb & E).
+      destruct (snd r) eqn:Sr.
+      - apply (IH _ _ _ _ E).
+        (* a continuing iteration always reports a statement *)
+        unfold stmts_body in Eb. apply bind_ok_inv in Eb. destruct Eb as (? & ? & _ & Eb).
+        apply bind_ok_inv in Eb. destruct Eb as (b1 & ? & _ & Eb). destruct b1.
+        { apply bind_ok_inv in Eb. destruct Eb as (? & ? & _ & Eb). inversion Eb; subst. reflexivity. }
+        apply bind_ok_inv in Eb. destruct Eb as (b2 & ? & _ & Eb). destruct b2.
+        { apply bind_ok_inv in Eb. destruct Eb as (? & ? & _ & Eb). inversion Eb; subst. reflexivity. }
+        apply bind_ok_inv in Eb. destruct Eb as (b3 & ? & _ & Eb). destruct b3; inversion Eb; subst; [reflexivity|discriminate].
+      - inversion E; subst.
+        unfold stmts_body in Eb. apply bind_ok_inv in Eb. destruct Eb as (? & ? & _ & Eb).
+        apply bind_ok_inv in Eb. destruct Eb as (b1 & ? & _ & Eb). destruct b1.
+        { apply bind_ok_inv in Eb. destruct Eb as (? & ? & _ & Eb). inversion Eb; subst. discriminate. }
+        apply bind_ok_inv in Eb. destruct Eb as (b2 & ? & _ & Eb). destruct b2.
+        { apply bind_ok_inv in Eb. destruct Eb as (? & ? & _ & Eb). inversion Eb; subst. discriminate. }
+        apply bind_ok_inv in Eb. destruct Eb as (b3 & ? & _ & Eb). destruct b3; inversion Eb; subst; [discriminate|exact Hv].
+    Qed.
+
+    Lemma Statements_nfr : nfr (Statements_b A G call ca).
+    Proof.
+      intros s s' W Tb E. unfold Statements_b in E. apply with_depth_inv in E. destruct E as (s2 & E & Ep). rewrite Ep.
+      apply bind_ok_inv in E. destruct E as (v & s3 & El & E). inversion E; subst. clear E.
+      change (loop stmts_body (false, true) (mkState (pos s) (S (depth s)) (user s)) = Ok (v, s2)) in El.
+      unfold loop in El. cbn [while_] in El. apply bind_ok_inv in El. destruct El as (r & s1 & Eb & El).
+      destruct (stmts_body_inv _ (mkState (pos s) (S (depth s)) (user s)) _ _ W Tb Eb) as [[Sr Fr]|(Sr & Fr & W1 & T1 & B1)].
+      - rewrite Sr in El. pose proof (stmts_while_mono _ _ _ _ _ El Fr) as Hv. congruence.
+      - rewrite Sr in El. inversion El; subst. auto.
+    Qed.
+  End Stmts.
+
+  Lemma nfr_tick (m : PM bool) : nfr m -> nfr (fun s => m (tick s)).
+  Proof. intros H s s' W Tb E. exact (H (tick s) s' W Tb E). Qed.
+  Lemma P_nfr : forall f nt, needs nt -> nfr (P A T K G f nt).
+  Proof.
+    induction f as [|f IH]; intros nt Hn.
+    - intros s s' _ _ E. discriminate.
+    - cbn [P]. apply nfr_tick. apply body_nfr; [|exact Hn]. intros nt' Hn'. apply IH, Hn'.
+  Qed.
+
+  Lemma P_Statements_nfr f ca : nfr (P A T K G f (NStatements ca)).
+  Proof.
+    destruct f as [|f]; [intros s s' _ _ E; discriminate|].
+    cbn [P body]. apply nfr_tick. apply Statements_nfr. intros nt Hn. apply P_nfr, Hn.
+  Qed.
+
+  (* parse_internal (no `#!` line): a Noop root means the whole buffer is trivia *)
+  Definition no_shebang (b : list N) : Prop := match b with 35%N :: 33%N :: _ => False | _ => True end.
+
+  Lemma no_shebang_match {X} (a b : X) l : no_shebang l -> match l with 35%N :: 33%N :: _ => a | _ => b end = b.
+  Proof.
+    unfold no_shebang. intros H.
+    repeat (match goal with |- context [match ?x with _ => _ end] => destruct x end; try reflexivity; try contradiction).
+  Qed.
+
+  Lemma parse_internal_noop f (s s' : ST) n :
+    wf_pos (pos s) -> tb (pos s) -> no_shebang (buf (pos s)) ->
+    parse_internal_b A (P A T K G f) s = Ok (n, s') -> pn_kind n = KNoop ->
+    trivia_only (buf (pos s)) = true.
+  Proof.
+    intros W Tb Hns E Hk. unfold parse_internal_b in E.
+    apply bind_ok_inv in E. destruct E as (p0 & sa & Ea & E). cbv [get_pos] in Ea. inversion Ea; subst. clear Ea.
+    apply bind_ok_inv in E. destruct E as (u0 & sb & Eb & E).
+    assert (Hsb : sb = sa).
+    { rewrite (no_shebang_match _ _ _ Hns) in Eb. inversion Eb. reflexivity. }
+    subst sb. clear Eb.
+    apply bind_ok_inv in E. destruct E as (b & sc & Es & E). destruct b.
+    - (* Statements matched: the root is the File node *)
+      exfalso. apply bind_ok_inv in E. destruct E as (u1 & sd & Ed & E).
+      apply bind_ok_inv in Ed. destruct Ed as (p1 & se & Ee & Ed). cbv [get_pos] in Ee. inversion Ee; subst. clear Ee.
+      destruct (has_more (pos se)); [discriminate|].
+      unfold build_match in Ed. cbv [bind get_stack get_pos get_fname] in Ed. cbn [Nat.ltb Nat.leb skipn firstn app] in Ed.
+      cbn [ctor_check] in Ed. cbv [set_stack] in Ed. inversion Ed; subst. clear Ed.
+      cbv [bind get_stack ret] in E. cbn [user stk] in E. inversion E; subst. discriminate.
+    - destruct (P_Statements_nfr f true _ _ W Tb Es) as (W1 & T1 & B1).
+      apply bind_ok_inv in E. destruct E as (u1 & sd & Ed & E).
+      apply bind_ok_inv in Ed. destruct Ed as (b2 & se & Ee & Ed).
+      pose proof (SkipWS_tb A white_ok true sc W1 T1) as Hw. rewrite Ee in Hw. destruct Hw as [Ex2 T2].
+      apply bind_ok_inv in Ed. destruct Ed as (p1 & sf & Ef & Ed). cbv [get_pos] in Ef. inversion Ef; subst. clear Ef.
+      destruct (has_more (pos sf)) eqn:Hm; [discriminate|].
+      apply has_more_false in Hm. pose proof (ext_len _ _ Ex2) as HL.
+      assert (Hend : idx (pos sf) = List.length (buf (pos sf))) by lia.
+      pose proof (tb_end_accept _ T2 Hend) as Ht. rewrite (ext_buf _ _ Ex2), B1 in Ht. exact Ht.
+  Qed.
+End GrammarTrivia.
